@@ -169,6 +169,25 @@ impl<'a> Gen<'a> {
                 head: vec![Action::Union(Pat::Var(0), Pat::App(f, vec![Pat::App(n, vec![Pat::Add(Box::new(Pat::Var(1)), Box::new(Pat::Int(1)))])]))],
             });
         }
+        if self.bias == Bias::C05 && self.funcs.len() >= 1 {
+            // every row of a function writes its value into ONE key within one iteration: several
+            // writes to one key arrive in one batch (the parallel path pre-merges them in a
+            // staging buffer before meeting the stored row)
+            let gf = self.funcs[0];
+            let gt = *self.funcs.last().unwrap();
+            choices.push(Rule {
+                body: vec![Fact::Eq(0, Pat::App(gf, vec![Pat::Var(1)]))],
+                head: vec![Action::Set(gt, vec![Pat::App(k, vec![])], Pat::Var(0))],
+            });
+            choices.push(Rule {
+                body: vec![Fact::Eq(0, Pat::App(gf, vec![Pat::Var(1)])), Fact::Eq(2, Pat::App(f, vec![Pat::Var(3)]))],
+                head: vec![Action::Set(gt, vec![Pat::Var(2)], Pat::Add(Box::new(Pat::Var(0)), Box::new(Pat::Int(1))))],
+            });
+            choices.push(Rule {
+                body: vec![Fact::Eq(0, Pat::App(gf, vec![Pat::Var(1)]))],
+                head: vec![Action::Set(gt, vec![Pat::App(k, vec![])], Pat::Var(0))],
+            });
+        }
         if self.bias == Bias::C03 {
             // a wide head: one iteration stages writes to as many distinct tables as the signature
             // has (the database-level parallel merge only runs for >= 4 tables)
